@@ -370,3 +370,25 @@ package router
 //@   may-panic when true
 //@   assigns \nothing
 //@   ensures case placed: typeis(key, string) ==> ret1 == nil && ret0 == m.MycatPartitionLongShard.segment[int(strHashS(unbox(key, string), sliceLo(m, unbox(key, string)), sliceHi(m, unbox(key, string)))) & 1023]
+
+// ---------------------------------------------------------------- C04 rule accessors used when statements are filed per copy
+//@ pure ruleDB(r Rule) string
+//@ pure sliceIdxOf(r Rule, t int) int
+//@ pure sliceNameOf(r Rule, i int) string
+//@ pure dbNameOf(r Rule, t int) string
+//@ iface Rule.GetDB
+//@   params recv
+//@   pure-call
+//@   ensures ret0 == ruleDB(recv)
+//@ iface Rule.GetSliceIndexFromTableIndex
+//@   params recv, i
+//@   pure-call
+//@   ensures ret0 == sliceIdxOf(recv, i)
+//@ iface Rule.GetSlice
+//@   params recv, i
+//@   pure-call
+//@   ensures ret0 == sliceNameOf(recv, i)
+//@ iface Rule.GetDatabaseNameByTableIndex
+//@   params recv, index
+//@   pure-call
+//@   ensures ret0 == dbNameOf(recv, index)
